@@ -167,7 +167,7 @@ Print Assumptions C17_missing_dim_refuted.
 (* ... and with validation before scaling every such fault is refused *)
 Theorem C17_missing_dim_refused_when_validated_first : forall vc f x,
   single_fault_missing_dim f x -> Forall wf_fitem (f_items f) -> refused (transform_vbs true f x) /\ refused (transform_outcome true vc f x).
-Proof. exact (fun vc f x H W => conj (every_missing_dim_refused_when_validated true f x H W) (every_missing_dim_refused_when_validated vc f x H W)). Qed.
+Proof. exact missing_dim_refused_when_validated_first. Qed.
 Print Assumptions C17_missing_dim_refused_when_validated_first.
 
 Theorem C17_any_missing_dim_refused_when_validated_first : forall vc f x fi it d,
@@ -241,18 +241,23 @@ Print Assumptions C17_sample_count_mismatch_refused.
 Theorem C17_cross_transform_refused : forall vd vc f1 f2 x y,
   refused (transform_outcome vd vc f1 x) \/ refused (transform_outcome vd vc f2 y) ->
   refused (cross_transform_outcome vd vc f1 f2 x y).
-Proof. exact (fun vd vc f1 f2 x y H => match H with or_introl a => cross_transform_refused_l vd vc f1 f2 x y a | or_intror b => cross_transform_refused_r vd vc f1 f2 x y b end). Qed.
+Proof. exact cross_transform_refused. Qed.
 Print Assumptions C17_cross_transform_refused.
 
 (* ---- rotators: n_modes is a slice stop, and a stop that is not a number does not bound it ---- *)
-Theorem C17_rotator_too_few_refused : forall z avail, (z <= 1)%Z -> rotator_fit_outcome (VInt z) avail = Err EValueError.
+Theorem C17_rotator_too_few_refused : forall chk z avail, (z <= 1)%Z -> refused (rotator_fit_outcome chk (VInt z) avail).
 Proof. exact rotator_too_few_refused. Qed.
 Print Assumptions C17_rotator_too_few_refused.
 
 Theorem C17_rotator_non_numeric_refuted :
-  exists v avail, pyty_isinstance (ty_of v) [TInt; TFloat] = false /\ rotator_fit_outcome v avail = Ok tt.
+  exists v avail, pyty_isinstance (ty_of v) [TInt; TFloat] = false /\ rotator_fit_outcome no_ctor_check v avail = Ok tt.
 Proof. exact rotator_non_numeric_refuted. Qed.
 Print Assumptions C17_rotator_non_numeric_refuted.
+
+(* ... and any constructor check that refuses the value makes the rotator refuse it *)
+Theorem C17_rotator_ctor_check_refuses : forall chk v avail k, chk v = Err k -> rotator_fit_outcome chk v avail = Err k.
+Proof. exact rotator_ctor_check_refuses. Qed.
+Print Assumptions C17_rotator_ctor_check_refuses.
 
 (* ---- non-vacuity: valid calls are answered ---- *)
 Theorem C17_valid_calls_answered :
@@ -279,5 +284,5 @@ Theorem C17_order_ties :
   single_fit_order = declared_single_fit_order /\ single_transform_order = declared_single_transform_order /\
   map fst preprocessor_transformer_order = declared_transformer_order /\
   stacker_transform_order = declared_stacker_transform_order.
-Proof. exact (conj (proj1 tie_entry_point_orders) (conj (proj1 (proj2 tie_entry_point_orders)) (conj (proj1 tie_preprocessor_orders) (proj1 (proj2 tie_preprocessor_orders))))). Qed.
+Proof. exact tie_orders_summary. Qed.
 Print Assumptions C17_order_ties.
